@@ -40,3 +40,8 @@ pub assume_specification [<i64>::abs] (a: i64) -> (r: i64)
 pub assume_specification [<i128>::abs] (a: i128) -> (r: i128)
     requires a != i128::MIN,
     ensures r == (if a < 0 { -(a as int) } else { a as int });
+
+pub open spec fn ipow(b: int, e: nat) -> int decreases e { if e == 0 { 1 } else { b * ipow(b, (e - 1) as nat) } }
+pub assume_specification [<i32>::pow] (a: i32, e: u32) -> (r: i32)
+    requires i32::MIN <= ipow(a as int, e as nat) <= i32::MAX,
+    ensures r == ipow(a as int, e as nat);
